@@ -50,6 +50,27 @@ Fixpoint all_same2 (l1 l2 : list (oq * oq)) : bool :=
 Definition forms_ok (f : (oq * oq) -> bool) (arr sca : list (oq * oq)) : bool :=
   all_pairs f arr && all_same2 arr sca.
 
+(* the same call in another container form (list, strided view, long array, other dtype ...) may take another
+   numpy inner loop (SIMD or scalar) and differ in the last bits: equal up to [tol], or -- for a periodic coordinate --
+   a whole period [per] apart up to [tol] (per = 0: not periodic) *)
+Definition q_close (tol per : Q) (x y : Q) : bool :=
+  let d := Qabs (x - y) in
+  Qle_bool d tol || (negb (Qeq_bool per 0) && Qle_bool (per - tol) d && Qle_bool d (per + tol)).
+Definition oq_close (tol per : Q) (a b : oq) : bool :=
+  match a, b with Some x, Some y => q_close tol per x y | None, None => true | _, _ => false end.
+Definition pair_close (tol per1 per2 : Q) (p q : oq * oq) : bool :=
+  oq_close tol per1 (fst p) (fst q) && oq_close tol per2 (snd p) (snd q).
+Fixpoint all_close2 (tol per1 per2 : Q) (l1 l2 : list (oq * oq)) : bool :=
+  match l1, l2 with
+  | [], [] => true
+  | p :: t1, q :: t2 => pair_close tol per1 per2 p q && all_close2 tol per1 per2 t1 t2
+  | _, _ => false
+  end.
+Definition forms_close (f : (oq * oq) -> bool) (tol per1 per2 : Q) (arr sca : list (oq * oq)) : bool :=
+  all_pairs f arr && all_close2 tol per1 per2 arr sca.
+Definition triple_close (tol : Q) (p q : oq * oq * oq) : bool :=
+  oq_close tol 0 (fst (fst p)) (fst (fst q)) && oq_close tol 0 (snd (fst p)) (snd (fst q)) && oq_close tol 0 (snd p) (snd q).
+
 Fixpoint all_triples (l : list (oq * oq * oq)) : bool :=
   match l with [] => true | p :: t => unit_ok p && all_triples t end.
 Fixpoint all_same3 (l1 l2 : list (oq * oq * oq)) : bool :=
@@ -59,6 +80,13 @@ Fixpoint all_same3 (l1 l2 : list (oq * oq * oq)) : bool :=
   | _, _ => false
   end.
 Definition xyz_forms_ok (arr sca : list (oq * oq * oq)) : bool := all_triples arr && all_same3 arr sca.
+Fixpoint all_close3 (tol : Q) (l1 l2 : list (oq * oq * oq)) : bool :=
+  match l1, l2 with
+  | [], [] => true
+  | p :: t1, q :: t2 => triple_close tol p q && all_close3 tol t1 t2
+  | _, _ => false
+  end.
+Definition xyz_forms_close (tol : Q) (arr sca : list (oq * oq * oq)) : bool := all_triples arr && all_close3 tol arr sca.
 
 (* range checks of eq2sdss / sdss2eq on exact rationals (the bounds are those of Gen.v: 0,360,-90,90,
    -180,180 -- Proofs.sdss_ranges_eq) *)
